@@ -673,6 +673,22 @@ func (x *scen) variant(rh int64, kind string, R *vh.Rng) *types.Block {
 			b.LastCommit.Precommits[j] = nv
 			rehash()
 		}
+	case "hashless": // a forged block whose header does not hash (no validators hash): its id has no hash, only parts
+		b = x.forge(rh)
+		b.Header.ValidatorsHash = nil
+	case "lc-hashless": // child of the hashless forgery of rh-1, "justified" by genuine precommits FOR NIL of a failed round
+		if rh >= 2 && x.blocks[rh-1] != nil {
+			f := x.forge(rh - 1)
+			f.Header.ValidatorsHash = nil
+			id := idOf(f)
+			b.Header.LastBlockID = id
+			c := &types.Commit{BlockID: id}
+			for j := range x.pw[rh-1] {
+				c.Precommits = append(c.Precommits, x.sign(j, rh-1, 0, types.VoteTypePrecommit, types.BlockID{}, j))
+			}
+			b.LastCommit = c
+			b.Header.LastCommitHash = c.Hash()
+		}
 	case "extra": // same header hash (Header.Extra is not hashed), another part set
 		b = x.extraOf(rh)
 	case "lc-relabel": // child of the "extra" variant of rh-1: the first precommit genuine, the others name the
@@ -1027,7 +1043,8 @@ func main() {
 		return
 	}
 	scenarios := r.Scale(14, 120)
-	for q := 0; q < scenarios; q++ {
+	// (two more scenarios than random ones: the last two begin with a directed lie, see below)
+	for q := 0; q < scenarios+2; q++ {
 		x.lines = x.lines[:0]
 		x.dead = false
 		n := R.Range(4, 7)
@@ -1064,6 +1081,15 @@ func main() {
 		}
 		honestOnly := R.Chance(15)
 		steps := R.Range(4, 30)
+		if q >= scenarios && !x.dead && x.pool.VerifHeight()+1 <= x.H {
+			// directed, after the random scenarios: precommits for nil justify no block. A forged block whose
+			// header has no hash, and a child that offers a failed round's genuine nil precommits as its commit
+			ph := x.pool.VerifHeight()
+			x.serve(ph, "hashless", uint64(R.Intn(1<<30)), "holder")
+			x.serve(ph+1, "lc-hashless", uint64(R.Intn(1<<30)), "holder")
+			x.sync(nil)
+			r.Count("directed.hashless-pair")
+		}
 		for k := 0; k < steps && !x.dead && x.pool.VerifHeight() < x.H; k++ {
 			ph := x.pool.VerifHeight()
 			switch c := R.Intn(100); {
